@@ -1,6 +1,6 @@
 (* Spec/SigStr.v -- what CPython 3.12 does with a parameter list, written after CPython, not after pydoctor:
 
-     * inspect.Parameter / inspect.Signature.__init__ (validation) and Parameter.__str__ /
+     * the parameter class of inspect / inspect.Signature.__init__ (validation), the __str__ of a parameter /
        Signature.__str__  ->  signature_init, param_str, sig_str
      * the `def` parameter grammar (Grammar/python.gram: parameters, star_etc, kwds)  ->  lex, read_sig
      * how the parser stores defaults in ast.arguments (right-aligned `defaults`, per-parameter
@@ -37,7 +37,7 @@ Fixpoint text_eqb (a b : text) : bool :=
   end.
 Definition mem_text (x : text) (l : list text) : bool := existsb (text_eqb x) l.
 
-(* ---- inspect.Parameter / inspect.Signature ---------------------------------------------------- *)
+(* ---- inspect: parameter / Signature ---------------------------------------------------- *)
 Inductive kind := POSITIONAL_ONLY | POSITIONAL_OR_KEYWORD | VAR_POSITIONAL | KEYWORD_ONLY | VAR_KEYWORD.
 Definition kind_rank (k : kind) : N :=
   match k with
@@ -84,7 +84,7 @@ Definition signature_init (ps : list param) (ret : option expr) : sig_error + si
 Inductive piece := PC (c : N) | PE (e : expr).
 Definition pcs (t : text) : list piece := map PC t.
 
-(* Parameter.__str__ *)
+(* __str__ of one parameter *)
 Definition param_str (p : param) : list piece :=
   let f0 := pcs (pname p) in
   let f1 := match pannot p with
